@@ -893,6 +893,11 @@ func (self *Pipestance) Lock() error {
 	if self.metadata.exists(Lock) {
 		return &PipestanceLockedError{self.node.top.GetPsid(), self.GetPath()}
 	}
+	// Registering the handler which removes the lock file and writing the lock
+	// file must not be separated by the handling of a termination signal, or
+	// the handler runs before the file exists and the file is then left behind.
+	util.EnterCriticalSection()
+	defer util.ExitCriticalSection()
 	util.RegisterSignalHandler(self)
 	if err := self.metadata.WriteTime(Lock); err != nil {
 		util.LogError(err, "runtime", "Error writing pipestance lock file.")
